@@ -51,15 +51,17 @@ theorem doReply_ok (cfg : Cfg) (R : RespTab) (c : Conn) (r : Nat) (cl : Bool) (h
   · exact ⟨rfl, rfl, h⟩
   · split
     · exact ⟨rfl, rfl, h⟩
-    · rename_i R1 hacq
-      have hR1 := acquire_cf R R1 _ h hacq
-      split
-      · exact ⟨(closeConn_addr R1 _).1, (closeConn_addr R1 _).2, closeConn_cf R1 _ hR1⟩
-      · split
+    · split
+      · exact ⟨rfl, rfl, h⟩
+      · rename_i R1 hacq
+        have hR1 := acquire_cf R R1 _ h hacq
+        split
         · exact ⟨(closeConn_addr R1 _).1, (closeConn_addr R1 _).2, closeConn_cf R1 _ hR1⟩
         · split
-          · exact ⟨rfl, rfl, hR1⟩
-          · exact finishReply_ok R1 _ hR1
+          · exact ⟨(closeConn_addr R1 _).1, (closeConn_addr R1 _).2, closeConn_cf R1 _ hR1⟩
+          · split
+            · exact ⟨rfl, rfl, hR1⟩
+            · exact finishReply_ok R1 _ hR1
 
 theorem handleReq_ok (cfg : Cfg) (R : RespTab) (c : Conn) (h : CountFaultFree R.fault) :
     HOk c (handleReq cfg R c) := by
